@@ -304,3 +304,11 @@ Qed.
 (* the defect the repair removed, kept as a theorem: a table id with a quote *)
 Theorem raw_quote_refuted : exists s rest, lex_string (raw_literal s ++ rest) <> Some (s, rest).
 Proof. exists (K "my ""id"""), []. vm_compute. discriminate. Qed.
+
+Lemma string_literal_witness :
+  Forall scalar [34; 92; 0; 31; 127; 233; 8232; 55295; 57344; 65535; 65536; 119070; 1114111]
+  /\ dumps_str [34; 92; 10; 233; 119070] = K """\""\\\n\u00e9\ud834\udd1e""".
+Proof.
+  split; [|vm_compute; reflexivity].
+  repeat (apply Forall_cons; [unfold scalar; lia|]). apply Forall_nil.
+Qed.
